@@ -2,7 +2,8 @@
 //!
 //! Generation mode: values come from a PRNG seeded by the case seed and are
 //! recorded. Replay mode: values are read back (clamped to the site's range)
-//! and the tape is zero-extended when exhausted. Choice sites are designed so
+//! and the tape is zero-extended when exhausted (a history ends at the first
+//! step boundary after that). Choice sites are designed so
 //! that 0 is the boring choice, which is what makes delete/zero/halve
 //! shrinking converge on short, plain histories.
 
@@ -36,6 +37,14 @@ impl Tape {
             pos: 0,
             overrun: 0,
         }
+    }
+
+    /// Replay mode only: every recorded choice has been consumed. The step
+    /// loops of the drivers end the history here, so that the shrinker can
+    /// drop a whole step by deleting its block of choices (the chosen step
+    /// count is only an upper bound on replay).
+    pub fn exhausted(&self) -> bool {
+        self.rng.is_none() && self.pos >= self.replay.len()
     }
 
     /// A value in `0..n`. `_site` documents the decision; it is not recorded.
@@ -175,6 +184,22 @@ pub fn minimise(
             }
             block /= 2;
         }
+        // Pass 2b: delete short blocks at every offset (a step of a history
+        // is a handful of consecutive choices at an arbitrary offset).
+        for size in (2..=8usize).rev() {
+            let mut i = 0;
+            while i + size <= best.len() && used < budget {
+                let mut cand = best[..i].to_vec();
+                cand.extend_from_slice(&best[i + size..]);
+                used += 1;
+                if try_tape(&cand).is_some() {
+                    best = cand;
+                    progress = true;
+                } else {
+                    i += 1;
+                }
+            }
+        }
         // Pass 3: lower individual values.
         let mut i = 0;
         while i < best.len() && used < budget {
@@ -200,9 +225,6 @@ pub fn minimise(
             }
             i += 1;
         }
-    }
-    while best.last() == Some(&0) {
-        best.pop();
     }
     (best, used, true)
 }
